@@ -1076,4 +1076,138 @@ theorem C04_path_lexes_sqlite (ws : List (List Nat)) (hne : ws ≠ [])
   C04_path_lexes _ classOK_sqlite classOKdot_live.1
     ((List.all_eq_true.mp stopOK_live.1) 46 (by decide)) ws hne hall
 
+/-! ### a keyword word lexes as ITS keyword token
+
+The other half of `C04_unquoted_word`: when a plain word is matched by keyword rules, the first of them (rule order) wins and
+the whole word is one token of that type — so an unquoted `id`-alternative keyword (`status`, `tables`, …) comes back as that
+keyword token, which the grammar's `id` rule accepts. -/
+
+def kwHit (r : Rule) (w : List Nat) : Bool := match kwSets r.re with | some sets => kwMatch sets w | none => false
+
+def firstKwSplit : List Rule → List Nat → Option (List Rule × Rule × List Rule)
+  | [], _ => none
+  | r :: rs, w => if kwHit r w then some ([], r, rs) else (firstKwSplit rs w).map fun (a, x, b) => (r :: a, x, b)
+
+theorem firstKwSplit_spec : ∀ {rules : List Rule} {w : List Nat} {a x b}, firstKwSplit rules w = some (a, x, b) →
+    rules = a ++ x :: b ∧ kwHit x w = true ∧ ∀ y ∈ a, kwHit y w = false := by
+  intro rules
+  induction rules with
+  | nil => intro w a x b h; simp [firstKwSplit] at h
+  | cons r rs ih =>
+    intro w a x b h
+    unfold firstKwSplit at h
+    by_cases hh : kwHit r w = true
+    · simp only [hh, if_true, Option.some.injEq, Prod.mk.injEq] at h
+      obtain ⟨h1, h2, h3⟩ := h
+      subst h1; subst h2; subst h3
+      exact ⟨rfl, hh, fun y hy => by cases hy⟩
+    · simp only [hh, Bool.false_eq_true, if_false, Option.map_eq_some_iff] at h
+      obtain ⟨⟨a', x', b'⟩, hs, he⟩ := h
+      simp only [Prod.mk.injEq] at he
+      obtain ⟨h1, h2, h3⟩ := he
+      subst h1; subst h2; subst h3
+      obtain ⟨e1, e2, e3⟩ := ih hs
+      refine ⟨by rw [e1]; rfl, e2, ?_⟩
+      intro y hy
+      rcases List.mem_cons.mp hy with h0 | h0
+      · subst h0; simpa using hh
+      · exact e3 y h0
+
+/-- the keyword rule that takes a plain word: the first one (rule order) in front of `ID` that fits it class by class -/
+def kwRuleOf (c : Cfg) (w : List Nat) : Option Rule :=
+  match splitAtID c.rules with
+  | none => none
+  | some (pre, _, _) => (firstKwSplit pre w).map fun x => x.2.1
+
+/-- **a plain keyword word is one token of its keyword rule** — every rule list with `classOK`, every word -/
+theorem C04_kw_lexes (c : Cfg) (hc : classOK c = true) (w : List Nat) (hw : PlainWord w) (r : Rule)
+    (hr : kwRuleOf c w = some r) : lex c w = .ok [.tok r.name r.ignored w] := by
+  unfold classOK at hc
+  unfold kwRuleOf at hr
+  cases hs : splitAtID c.rules with
+  | none => rw [hs] at hc; cases hc
+  | some x =>
+    obtain ⟨pre, idr, post⟩ := x
+    rw [hs] at hc hr
+    dsimp only at hr
+    simp only [Bool.and_eq_true, List.all_eq_true, Bool.not_eq_true'] at hc
+    obtain ⟨⟨⟨⟨hpre, _⟩, _⟩, hword⟩, hignore⟩ := hc
+    obtain ⟨erules, _⟩ := splitAtID_spec hs
+    obtain ⟨hall, c0, t0, ew, hlet⟩ := hw
+    have hW : ∀ x ∈ w, c.word.mem x = true := fun x hx => allMemR_sound hword (hall x hx)
+    cases hfs : firstKwSplit pre w with
+    | none => rw [hfs] at hr; cases hr
+    | some y =>
+      obtain ⟨a, x, b⟩ := y
+      rw [hfs] at hr
+      simp only [Option.map_some, Option.some.injEq] at hr
+      subst hr
+      obtain ⟨epre, hhit, hmiss⟩ := firstKwSplit_spec hfs
+      -- the rules in front of `x` do not match
+      have hnone : ∀ y ∈ a, matchAt c.word y.re ⟨[], w⟩ = none := by
+        intro y hy
+        have hok := hpre y (by rw [epre]; exact List.mem_append_left _ hy)
+        unfold ruleOK at hok
+        simp only [Bool.or_eq_true] at hok
+        rcases hok with (ho | hkw) | hf
+        · exact matchAt_none_of_needsOut ho (fun z hz => mem_sound (hW z hz))
+        · cases hks : kwSets y.re with
+          | none => rw [hks] at hkw; cases hkw
+          | some sets =>
+            rw [hks] at hkw
+            cases hm : matchAt c.word y.re ⟨[], w⟩ with
+            | none => rfl
+            | some q =>
+              have hne : sets ≠ [] := by
+                intro h0; subst h0; simp at hkw
+              have := kw_match hks hne (p := ⟨[], w⟩) hW hm
+              have hmy := hmiss y hy
+              unfold kwHit at hmy
+              rw [hks] at hmy
+              simp only at this hmy
+              rw [this] at hmy
+              cases hmy
+        · simp only [Bool.and_eq_true] at hf
+          exact matchAt_none_of_first hf.1 hf.2 (p := ⟨[], w⟩) ew hlet
+      -- `x` matches the whole word
+      unfold kwHit at hhit
+      cases hks : kwSets x.re with
+      | none => rw [hks] at hhit; cases hhit
+      | some sets =>
+        rw [hks] at hhit
+        simp only at hhit
+        have hne : sets ≠ [] := by
+          intro h0; subst h0; rw [ew] at hhit; simp [kwMatch] at hhit
+        have hxm : matchAt c.word x.re ⟨[], w⟩ = some ⟨w.reverse, []⟩ := by
+          have := kw_matches hks hne (pre := []) (u := w) rfl hhit hW
+          simpa using this
+        have hfm : firstMatch c.word c.rules ⟨[], w⟩ = some (x, ⟨w.reverse, []⟩) := by
+          rw [erules, epre]
+          simp only [List.append_assoc, List.cons_append]
+          rw [firstMatch_skip a _ hnone]
+          simp [firstMatch, hxm]
+        have hc0 : c.ignore.mem c0 = false := by
+          cases h : c.ignore.mem c0 with
+          | false => rfl
+          | true => exact (disjointR_sound hignore (mem_sound h) hlet).elim
+        unfold lex
+        rw [ew] at hfm ⊢
+        simp only [List.length_cons, lexLoop, hc0, Bool.false_eq_true, if_false, hfm]
+        simp only [List.length_nil, Nat.zero_lt_succ, if_true]
+        cases hn : t0.length + 1 with
+        | zero => omega
+        | succ n => simp [lexLoop, between]
+
+/-- examples on the live mindsdb rules: `status` → STATUS, `TaBlEs` → TABLES, `knowledge_base` → KNOWLEDGE_BASE;
+`selected` has no keyword rule -/
+theorem C04_kw_lexes_examples :
+    (kwRuleOf LexRe_mindsdb.cfg [115, 116, 97, 116, 117, 115]).map (·.name) = some "STATUS" ∧
+    (kwRuleOf LexRe_mindsdb.cfg [84, 97, 66, 108, 69, 115]).map (·.name) = some "TABLES" ∧
+    (kwRuleOf LexRe_mindsdb.cfg [107, 110, 111, 119, 108, 101, 100, 103, 101, 95, 98, 97, 115, 101]).map (·.name) = some "KNOWLEDGE_BASE" ∧
+    (kwRuleOf LexRe_mindsdb.cfg [115, 101, 108, 101, 99, 116, 101, 100]).map (·.name) = none := by
+  decide +kernel
+
+theorem C04_kw_lexes_mindsdb (w : List Nat) (hw : PlainWord w) (r : Rule) (hr : kwRuleOf LexRe_mindsdb.cfg w = some r) :
+    lex LexRe_mindsdb.cfg w = .ok [.tok r.name r.ignored w] := C04_kw_lexes _ classOK_mindsdb w hw r hr
+
 end MindsVerif.Props.C04Lex
